@@ -7,8 +7,8 @@ import MakoModel.PyExpr.Ast
 `local_ident_stack` (replaced by a copy on entry to a function/lambda and restored on exit; names stored inside a
 function are added to the copy in place) and the listener's two sets.  The model threads the three sets as
 duplicate-free lists; `in_function` is a parameter.  The code is modelled **as written**, including what it does
-not visit (parameter defaults, decorators, class bases and bodies, `*args`/keyword-only/`**kw` parameters,
-the element and conditions of a comprehension inside a function).
+not visit (parameter defaults, decorators, class bases and bodies, the element and conditions of a comprehension
+inside a function).
 
 `Spec.freeNames`/`Spec.boundNames` is the specification: Python's compile-time scoping of the block taken as a
 function body.  Ground truth on the Python side is `symtable` (harness stream `corr.spec-vs-symtable`).
@@ -44,9 +44,10 @@ def fiName (inF : Bool) (id : Str) (ctx : Ctx) (s : FI) : FI :=
     { s with undeclared := ins id s.undeclared }
   else s
 
-/-- the parameters `_visit_function` knows about: `node.args.args` only -/
+/-- the parameters `_visit_function` records as locals: positional-only, ordinary, keyword-only, `*vararg`,
+`**kwarg` -/
 def Args.fiParams : Args → List Str
-  | .mk _ args _ _ _ _ _ => args
+  | .mk posonly args vararg kwonly _ kwarg _ => posonly ++ args ++ kwonly ++ vararg.toList ++ kwarg.toList
 
 mutual
 /-- `FindIdentifiers.visit(e)` -/
@@ -64,7 +65,7 @@ def fiExpr (inF : Bool) : Expr → FI → FI
   | .ifExp t b o, s => fiExpr inF o (fiExpr inF b (fiExpr inF t s))
   | .lambda a b, s =>
       if fiHas ['L', 'a', 'm', 'b', 'd', 'a'] then
-        -- `_visit_function(node, True)`: parameters `args.args` become locals, the body is visited, the
+        -- `_visit_function(node, True)`: the parameters become locals, the body is visited, the
         -- defaults are not; the set of locals is restored afterwards
         let s' := fiExpr true b { s with locals := insAll a.fiParams s.locals }
         { s' with locals := s.locals }
